@@ -124,6 +124,11 @@ func (z *Int) SetFromDecimal(s string) error {
 	if s == "" {
 		return fmt.Errorf("missing digits")
 	}
+	if s[0] == '+' {
+		// uint256 tolerates one more leading plus, a second sign is not a number.
+		z.neg = false
+		return fmt.Errorf("invalid decimal digit %q", s[0])
+	}
 
 	if err := z.mag.SetFromDecimal(s); err != nil {
 		return err
